@@ -221,15 +221,20 @@ func NewCMAC(b cipher.Block, size int) *cmac {
 		panic("cbcmac: invalid size")
 	}
 	blockSize := b.BlockSize()
+	// reduction constant of GF(2^n): x^128+x^7+x^2+x+1 or, for 64-bit blocks, x^64+x^4+x^3+x+1
+	var rb byte = 0b10000111
+	if blockSize == 8 {
+		rb = 0b00011011
+	}
 	k1 := make([]byte, blockSize)
 	k2 := make([]byte, blockSize)
 	b.Encrypt(k1, k1)
 	msb := shiftLeft(k1)
-	k1[len(k1)-1] ^= msb * 0b10000111
+	k1[len(k1)-1] ^= msb * rb
 
 	copy(k2, k1)
 	msb = shiftLeft(k2)
-	k2[len(k2)-1] ^= msb * 0b10000111
+	k2[len(k2)-1] ^= msb * rb
 
 	d := &cmac{b: b, k1: k1, k2: k2, size: size}
 	d.blockSize = blockSize
